@@ -21,8 +21,13 @@ Proof.
             exists evs', upd (rings s) j x i = fold_left (execZ N) evs' (rings s i)).
   { intros x j evs Hx. unfold upd. destruct (Nat.eqb_spec i j) as [->|]; [exists evs; exact Hx|exists []; reflexivity]. }
   destruct e as [t|t o]; cbn.
-  - unfold mstep. destruct (mthr s t) eqn:E; try (exists []; reflexivity).
-    + destruct (used_at M s j =? MAXID); [exists []; reflexivity|]. cbn. apply (Hupd _ _ [Start t (OpPub v)]). reflexivity.
+  - unfold mstep. destruct (mthr s t) eqn:E; try (exists []; reflexivity);
+      try (match type of E with _ = KC3 => idtac | _ = KC4 _ => idtac | _ = KD1 _ => idtac | _ = KD6 _ => idtac | _ = KSL _ => idtac end;
+           solve [repeat match goal with
+                         | |- context[if ?b then _ else _] => destruct b
+                         | |- context[match ?x with _ => _ end] => destruct x
+                         end; exists []; reflexivity]).
+    + destruct (used_at s j =? MAXID); [exists []; reflexivity|]. cbn. apply (Hupd _ _ [Start t (OpPub v)]). reflexivity.
     + unfold rstep_i. destruct (ridle _ t).
       * destruct (rres _); try destruct (_ <=? 2); cbn; rewrite ?rings_send_next; cbn; apply (Hupd _ _ [Step t]); reflexivity.
       * cbn. apply (Hupd _ _ [Step t]); reflexivity.
@@ -39,6 +44,8 @@ Proof.
     + rewrite rings_send_next. exists []; reflexivity.
     + destruct (alive s i0); [cbn; apply (Hupd _ _ [Start t OpCons]); reflexivity|exists []; reflexivity].
     + destruct (alive s i0); exists []; reflexivity.
+    + destruct (alive s i0); exists []; reflexivity.
+    + destruct (existsb _ _); exists []; reflexivity.
     + destruct (alive s i0); exists []; reflexivity.
 Qed.
 
@@ -76,11 +83,22 @@ Qed.
 Lemma binv_send_next s t v j : BInv s -> BInv (send_next M s t v j).
 Proof. intros [H1 H2 H3]. unfold send_next. destruct (M <=? j)%nat; constructor; cbn; auto. Qed.
 
-Lemma binv_exec s e : BInv s -> (forall t i, e = MStep t -> mthr s t = MDrop i -> alive s i = true) -> BInv (mexec s e).
+(* the stepped creation / removal of listeners (C17) is excluded from the C10 bookkeeping theorems: C10's histories create and
+   drop listeners between sends, as single steps *)
+Definition stepped (p : mpc) : bool :=
+  match p with
+  | KC1 | KC2 | KC3 | KC4 _ | KC5 _ | KD1 _ | KD2 _ | KD3 _ | KD4 _ | KD5 _ | KD6 _ | KD7 _ | KSL _ | KSW _ _ _ | KSU _ => true
+  | _ => false
+  end.
+Definition atomic_ev (e : mev) : bool :=
+  match e with MStart _ MoCreateS | MStart _ (MoDropS _) => false | _ => true end.
+
+Lemma binv_exec s e : BInv s -> (forall t i, e = MStep t -> mthr s t = MDrop i -> alive s i = true) ->
+  (forall t, e = MStep t -> stepped (mthr s t) = false) -> atomic_ev e = true -> BInv (mexec s e).
 Proof.
-  intros B Hd. pose proof B as [H1 H2 H3]. destruct e as [t|t o]; cbn.
-  - unfold mstep. destruct (mthr s t) eqn:E; try exact B; try (constructor; cbn; auto; fail).
-    + destruct (used_at M s j =? MAXID); constructor; cbn; auto.
+  intros B Hd Hk Hat. pose proof B as [H1 H2 H3]. destruct e as [t|t o]; cbn.
+  - unfold mstep. specialize (Hk t eq_refl). destruct (mthr s t) eqn:E; try discriminate Hk; try exact B; try (constructor; cbn; auto; fail).
+    + destruct (used_at s j =? MAXID); constructor; cbn; auto.
     + destruct (ridle _ t); [destruct (rres _); try destruct (_ <=? 2)|]; try (constructor; cbn; auto; fail);
         apply binv_send_next; constructor; cbn; auto.
     + destruct (wstep (msm s) w) as [m' [w'|]]; [constructor; cbn; auto|].
@@ -109,7 +127,7 @@ Proof.
            ++ apply in_app_or in Hin. destruct Hin as [Hin|[Hin|[]]]; [assumption|congruence].
            ++ apply in_or_app. now left.
   - unfold mstart. destruct (mthr s t); try exact B.
-    destruct o; try (constructor; cbn; auto; fail).
+    destruct o; try discriminate Hat; try (constructor; cbn; auto; fail).
     + apply binv_send_next. exact B.
     + destruct (alive s i); constructor; cbn; auto.
     + destruct (alive s i); constructor; cbn; auto.
@@ -122,7 +140,8 @@ Definition mtid (e : mev) : nat := match e with MStep t => t | MStart t _ => t e
 Record SInv1 (s : mst) : Prop := {
   s1_b : BInv s;
   s1_idle : forall t, t <> 0%nat -> mthr s t = MIdle;
-  s1_drop : forall i, mthr s 0%nat = MDrop i -> alive s i = true
+  s1_drop : forall i, mthr s 0%nat = MDrop i -> alive s i = true;
+  s1_k : stepped (mthr s 0%nat) = false
 }.
 
 Lemma mthr_send_next s t v j u : u <> t -> mthr (send_next M s t v j) u = mthr s u.
@@ -132,40 +151,51 @@ Proof. unfold send_next. destruct (M <=? j)%nat; reflexivity. Qed.
 Lemma mthr_send_next_same s t v j i : mthr (send_next M s t v j) t <> MDrop i.
 Proof. unfold send_next. destruct (M <=? j)%nat; cbn; rewrite upd_same; discriminate. Qed.
 
-Lemma sinv1_exec s e : mtid e = 0%nat -> SInv1 s -> SInv1 (mexec s e).
+Lemma sinv1_exec s e : mtid e = 0%nat -> atomic_ev e = true -> SInv1 s -> SInv1 (mexec s e).
 Proof.
-  intros Ht [B Hi Hd]. assert (B' : BInv (mexec s e)).
-  { apply binv_exec; [exact B|]. intros t i -> E. cbn in Ht. subst t. now apply Hd. }
-  constructor; [exact B'| |].
+  intros Ht Hat [B Hi Hd Hk]. assert (B' : BInv (mexec s e)).
+  { apply binv_exec; [exact B| | |exact Hat].
+    - intros t i -> E. cbn in Ht. subst t. now apply Hd.
+    - intros t ->. cbn in Ht. subst t. exact Hk. }
+  constructor; [exact B'| | |].
   - (* other threads stay idle *)
     intros u Hu. destruct e as [t|t o]; cbn in Ht; subst t; cbn.
-    + unfold mstep, after_mcons. destruct (mthr s 0%nat) eqn:E; try (now apply Hi);
+    + unfold mstep, after_mcons. destruct (mthr s 0%nat) eqn:E; try discriminate Hk; try (now apply Hi);
         repeat match goal with
                | |- context[send_next] => rewrite mthr_send_next by assumption
                | |- context[if ?b then _ else _] => destruct b
                | |- context[match ?x with _ => _ end] => destruct x
                end; cbn; rewrite ?mthr_send_next by assumption; cbn; rewrite ?upd_other by assumption; try (now apply Hi).
     + unfold mstart. destruct (mthr s 0%nat); try (now apply Hi).
-      destruct o; try destruct (alive s i); rewrite ?mthr_send_next by assumption; cbn; rewrite ?upd_other by assumption; now apply Hi.
+      destruct o; try discriminate Hat; try destruct (alive s i); rewrite ?mthr_send_next by assumption; cbn; rewrite ?upd_other by assumption; now apply Hi.
   - (* a pending drop targets a live stream *)
     intros i. destruct e as [t|t o]; cbn in Ht; subst t; cbn.
-    + unfold mstep, after_mcons. destruct (mthr s 0%nat) eqn:E; try (now apply Hd);
+    + unfold mstep, after_mcons. destruct (mthr s 0%nat) eqn:E; try discriminate Hk; try (now apply Hd);
         repeat match goal with
                | |- context[if ?b then _ else _] => destruct b
                | |- context[match ?x with _ => _ end] => destruct x
                end; cbn; rewrite ?upd_same; try discriminate; try (now apply Hd); try (rewrite E; discriminate); try (rewrite E; now apply Hd);
         try (intros H; exfalso; eapply mthr_send_next_same; eauto; fail).
     + unfold mstart. destruct (mthr s 0%nat) eqn:E; try (now apply Hd); try (rewrite E; discriminate); try (rewrite E; now apply Hd).
-      destruct o; try (destruct (alive s i0) eqn:Ea); cbn; rewrite ?upd_same; try discriminate;
+      destruct o; try discriminate Hat; try (destruct (alive s i0) eqn:Ea); cbn; rewrite ?upd_same; try discriminate;
         try (intros H; exfalso; eapply mthr_send_next_same; eauto; fail).
       intros H. injection H as <-. exact Ea.
+  - (* no stepped creation / removal is ever in progress *)
+    destruct e as [t|t o]; cbn in Ht; subst t; cbn.
+    + unfold mstep, after_mcons, send_next. destruct (mthr s 0%nat) eqn:E; try discriminate Hk; try (rewrite E; reflexivity);
+        repeat match goal with
+               | |- context[if ?b then _ else _] => destruct b
+               | |- context[match ?x with _ => _ end] => destruct x
+               end; cbn; rewrite ?upd_same; try reflexivity; try (rewrite E; reflexivity).
+    + unfold mstart, send_next. destruct (mthr s 0%nat) eqn:E; try (rewrite E; exact Hk); try (rewrite E; reflexivity).
+      destruct o; try discriminate Hat; repeat match goal with |- context[if ?b then _ else _] => destruct b end; cbn; rewrite ?upd_same; reflexivity.
 Qed.
 
-Theorem bookkeeping_sequential mevs : Forall (fun e => mtid e = 0%nat) mevs -> BInv (fold_left mexec mevs (minit M)).
+Theorem bookkeeping_sequential mevs : Forall (fun e => mtid e = 0%nat /\ atomic_ev e = true) mevs -> BInv (fold_left mexec mevs (minit M)).
 Proof.
   intros H. assert (G : forall s, SInv1 s -> SInv1 (fold_left mexec mevs s)).
-  { induction H as [|e mevs He Hr IH]; intros s I; [exact I|]. cbn [fold_left]. apply IH. now apply sinv1_exec. }
-  apply G. constructor; [apply binv_init|reflexivity|discriminate].
+  { induction H as [|e mevs [He Ha] Hr IH]; intros s I; [exact I|]. cbn [fold_left]. apply IH. now apply sinv1_exec. }
+  apply G. constructor; [apply binv_init|reflexivity|discriminate|reflexivity].
 Qed.
 
 (* stream ids never run out: if some id below MAX_STREAMS is not alive, the vacant list is not empty (so create succeeds) *)
